@@ -16,6 +16,7 @@ import (
 	"strconv"
 	"strings"
 	"sync"
+	"syscall"
 	"time"
 
 	"verif/internal/core"
@@ -298,6 +299,11 @@ func shard(a []string) {
 	spec, ok := props.Registry[id]
 	if !ok {
 		os.Exit(2)
+	}
+	if spec.MemLimit > 0 {
+		// address-space limit: a runaway allocation fails fast with "out of memory"
+		// instead of thrashing the machine
+		_ = syscall.Setrlimit(syscall.RLIMIT_AS, &syscall.Rlimit{Cur: spec.MemLimit, Max: spec.MemLimit})
 	}
 	r := core.NewRun(id, tier, seed(), i, n)
 	r.Build = build
